@@ -42,9 +42,10 @@ def r_C01visitors(root):
         mm = HS({".kind": "metamodel", ".file_name": "g.tx", "._new_cls_attr": pyeval.PyFn(new_attr), ".autokwd": AUTOKWD[0], ".ignore_case": False, ".skipws": True, ".ws": " \t", ".debug": False, ".memoization": False})
         v = HS({".kind": "visitor", ".debug": False, ".metamodel": mm, "._current_cls": cls, ".grammar_parser": {".pos_to_linecol": pyeval.PyFn(lambda p_: (1, p_)), ".debug": False}, ".dprint": pyeval.PyFn(lambda *a: None)})
         return v, cls
+    CTORS = exprs.ctor_env()
     def call(name, v, node, children):
         f, ps = method(name)
-        env = dict(consts); env.update(exprs.type_env()); env.update(exprs.ctor_env())
+        env = dict(consts); env.update(exprs.type_env()); env.update(CTORS)        # one set of class stand-ins for the whole run: Not is the same value in every call (it may be a dictionary key)
         env.update({"__functions__": fns, "__classes__": exprs.classes_env(), "__module__": t, ps[0]: v, ps[1]: node, ps[2]: children,
                     "TextXSyntaxError": errs("TextXSyntaxError"), "TextXSemanticError": errs("TextXSemanticError"),
                     "ClassCrossRef": pyeval.PyFn(lambda cls_name=None, position=0: HS({".kind": "ClassCrossRef", ".cls_name": cls_name, ".position": position}))})
@@ -76,16 +77,24 @@ def r_C01visitors(root):
         r = call("visit_repeat_operator", v, node, kids)
         if r[0] != "ret": raise AnalysisError("visit_repeat_operator %s" % desc(r))
         return r[1]
-    for tok in ("?", "*", "+"):
+    class _SM(HS):
+        """sample StrMatch: arpeggio's StrMatch compares (and hashes) by its text - StrMatch('!') == '!'"""
+        def __eq__(s_, o_): return s_[".to_match"] == (o_.get(".to_match") if isinstance(o_, dict) else str(o_))
+        def __ne__(s_, o_): return not s_.__eq__(o_)
+        def __hash__(s_): return hash(s_[".to_match"])
+    def sm(txt): return _SM(E("StrMatch", to_match=txt, ignore_case=False, str_repr=None, compile=pyeval.PyFn(lambda: None)))
+    for lit in ("x", "-", "+"):
+      en = "e" if lit == "x" else repr(lit)
+      for tok in ("?", "*", "+"):
         for sup in (False, True):
-            v, _c = new_visitor(); e = E("StrMatch", to_match="x"); e[".suppress"] = False
+            v, _c = new_visitor(); e = sm(lit); e[".suppress"] = False
             r = call("visit_repeatable_expr", v, node, [e, operator(v, tok)] + (["-"] if sup else []))
             ok = r[0] == "ret" and isinstance(r[1], dict) and r[1].get(".kind") == KIND[tok] and len(r[1].get(".nodes", [])) == 1 and r[1][".nodes"][0] is e and bool(r[1].get(".suppress")) == sup and r[1].get(".sep") is None and not r[1].get(".eolterm")
-            rep("C01.a", "visit_repeatable_expr", "e%s%s" % (tok, "-" if sup else ""), ok, "the expression  e%s%s  becomes %s; documented %s over [e]%s" % (tok, "-" if sup else "", desc(r), KIND[tok], ", suppressed" if sup else ""))
-    for sup in (False, True):
-        v, _c = new_visitor(); e = E("StrMatch", to_match="x")
+            rep("C01.a", "visit_repeatable_expr", "%s%s%s" % (en, tok, "-" if sup else ""), ok, "the expression  %s%s%s  becomes %s; documented %s over [%s]%s" % (en, tok, "-" if sup else "", desc(r), KIND[tok], en, ", suppressed" if sup else ", not suppressed (the literal is a string match that compares equal to its text, not the suppression operator)"), props_=(("C01",) if lit == "x" else ("C01", "C06")))
+      for sup in (False, True):
+        v, _c = new_visitor(); e = sm(lit)
         r = call("visit_repeatable_expr", v, node, [e] + (["-"] if sup else []))
-        rep("C01.a", "visit_repeatable_expr", "e%s" % ("-" if sup else ""), r[0] == "ret" and r[1] is e and bool(e.get(".suppress")) == sup, "the expression  e%s  (no repetition operator) becomes %s; documented: e itself%s" % ("-" if sup else "", desc(r), ", suppressed" if sup else ""))
+        rep("C01.a", "visit_repeatable_expr", "%s%s" % (en, "-" if sup else ""), r[0] == "ret" and r[1] is e and bool(e.get(".suppress")) == sup, "the expression  e%s  (no repetition operator) becomes %s; documented: e itself%s" % ("-" if sup else "", desc(r), ", suppressed" if sup else ""))
     v, _c = new_visitor(); a, b = E("StrMatch", to_match="a"), E("StrMatch", to_match="b"); sq = E("Sequence", a, b)
     r = call("visit_repeatable_expr", v, node, [sq, operator(v, "#")])
     rep("C01.a", "visit_repeatable_expr", "(a b)#", r[0] == "ret" and isinstance(r[1], dict) and r[1].get(".kind") == "UnorderedGroup" and [x for x in r[1].get(".nodes", [])] == [a, b], "(a b)#  becomes %s; documented an UnorderedGroup of the sequence's two nodes" % desc(r))
@@ -105,7 +114,6 @@ def r_C01visitors(root):
     v, _c = new_visitor()
     r = call("visit_repeatable_expr", v, node, [E("StrMatch", to_match="x"), operator(v, "?", E("StrMatch", to_match=","))])
     rep("C01.b", "visit_repeatable_expr", "e?[',']", r == ("raise", "TextXSyntaxError"), "e?[',']  (modifiers on the optional operator) %s; documented TextXSyntaxError" % desc(r), props_=("C01", "C23"))
-    def sm(txt): return E("StrMatch", to_match=txt, ignore_case=False, str_repr=None, compile=pyeval.PyFn(lambda: None))
     def kw(txt): return E("RegExMatch", to_match=txt, ignore_case=False, str_repr=txt, regex=None, to_match_regex=txt + "\\b", compile=pyeval.PyFn(lambda: None))          # a keyword-like literal as autokwd compiles it
     # ---------------------------------------------------------------- syntactic predicates
     for tok, kind, e, AUTOKWD[0] in (("!", "Not", sm("x"), False), ("&", "And", sm("x"), False), ("!", "Not", kw("end"), True), ("&", "And", kw("to"), True), ("!", "Not", sm("+"), True)):
@@ -116,6 +124,15 @@ def r_C01visitors(root):
     v, _c = new_visitor(); e = sm("x")
     r = call("visit_expression", v, node, [e])
     rep("C01.a", "visit_expression", "e", r[0] == "ret" and r[1] is e, "an expression without predicate becomes %s; documented: itself" % desc(r))
+    for tok, kind in (("!", "Not"), ("&", "And")):
+        v, _c = new_visitor(); r1_, r2_ = exprs.ruleref("Keyword"), exprs.ruleref("Keyword")
+        a1 = call("visit_expression", v, node, [tok, r1_]); a2 = call("visit_expression", v, node, [tok, r2_])
+        okd = a1[0] == a2[0] == "ret" and isinstance(a1[1], dict) and isinstance(a2[1], dict) and a1[1] is not a2[1] and a1[1].get(".nodes") == [r1_] and a2[1].get(".nodes") == [r2_] and a1[1][".nodes"][0] is r1_ and a2[1][".nodes"][0] is r2_
+        rep("C19.e", "visit_expression", "%sKeyword written twice" % tok, okd, "the predicate  %sKeyword  written in two places of a grammar becomes %s and %s%s; documented: a %s of its own over its own reference for each occurrence (an expression object carries per-occurrence state: rule name, suppression, the memoization table)" % (tok, desc(a1), desc(a2), " - the same object" if a1[0] == "ret" and a1[1] is a2[1] else "", kind), props_=("C19", "C01"))
+    for lit in ("!", "&"):
+        v, _c = new_visitor(); e = sm(lit)
+        r = call("visit_expression", v, node, [e])
+        rep("C01.a", "visit_expression", "the string match %r without predicate" % lit, r[0] == "ret" and r[1] is e, "the plain string match %r (which, like every arpeggio StrMatch, compares equal to its text) becomes %s; documented: itself - it is a literal, not the predicate operator" % (lit, desc(r)))
     # ---------------------------------------------------------------- choices and sequences keep their members, in written order
     inner_seq = E("Sequence", nodes=[sm("p"), sm("q")]); inner_ch = E("OrderedChoice", nodes=[sm("u"), sm("v")])
     for meth, kind, members, what in (("visit_choice", "OrderedChoice", [sm("<"), sm("<="), sm("=")], "'<' | '<=' | '='  (an alternative that is a prefix of a later one comes first)"),
@@ -173,7 +190,7 @@ def r_C01visitors(root):
     rep("C01.a", "visit_assignment", "a+=INT ... a*=INT", r[0] == "ret" and cls["._tx_attrs"]["a"][".mult"] == MP, "after a+=INT a later a*=INT leaves the multiplicity %r; documented: 1..* is kept" % (cls["._tx_attrs"].get("a", {}).get(".mult"),), props_=("C01", "C02"))
     v, cls = new_visitor()
     call("visit_assignment", v, node, ["a", "=", arhs(v, rhs())]); r = call("visit_assignment", v, node, ["a", "?=", arhs(v, rhs())])
-    rep("C01.a", "visit_assignment", "a=INT ... a?=INT", r == ("raise", "TextXSemanticError"), "a second assignment with ?= to an attribute already assigned %s; documented TextXSemanticError" % desc(r), props_=("C01", "C23"))
+    rep("C01.a", "visit_assignment", "a=INT ... a?=INT", r == ("raise", "TextXSemanticError"), "a second assignment with ?= to an attribute already assigned %s; documented TextXSemanticError" % desc(r), props_=("C01", "C23", "C02"))
     for second, want in (("INT", "INT"), ("STRING", "OBJECT")):
         v, cls = new_visitor()
         call("visit_assignment", v, node, ["a", "=", arhs(v, rhs("INT"))]); r = call("visit_assignment", v, node, ["a", "=", arhs(v, rhs(second))])
